@@ -9,8 +9,8 @@ import (
 // directed: every spelling of a number literal at every position that takes a number
 // ---------------------------------------------------------------------------------------------
 
-const numFormChunks = 4
-const refNameChunks = 6
+const numFormChunks = 8
+const refNameChunks = 12
 
 // values worth writing at a position, by parameter hint (two-digit values and 8 / 9 matter: a padded
 // literal read in another base changes value or stops being a number there)
